@@ -106,8 +106,8 @@ def same_kernel(a, b, tol=1e-9):
     keys = set(a) | set(b)
     for k in keys:
         x, y = a.get(k, 0.0), b.get(k, 0.0)
-        if abs(x - y) > tol * max(abs(x), abs(y)) + 1e-12:
-            return False, k
+        if not (math.isfinite(x) and math.isfinite(y)) or abs(x - y) > tol * max(abs(x), abs(y)) + 1e-12:
+            return False, k       # a NaN / infinite probability never agrees with anything
     return True, None
 
 
@@ -179,6 +179,13 @@ def run(tier, replay=None):
             n_base = r.randint(1, 5)
             n_alleles = G.gen_n_alleles(r, n_base)
             g = G.gen_genotype(r, ploidy, n_alleles, dup=0.6)
+            big = (i % 40 == 13)
+            if big:
+                # a large pool that is almost fixed for one haplotype: more than 127 copies of it
+                ploidy = r.choice([130, 140, 160]); n_base = 2; n_alleles = [2, 2]
+                major = [r.randrange(2), r.randrange(2)]
+                g = [list(major) for _ in range(ploidy - 2)] + [[r.randrange(2), r.randrange(2)] for _ in range(2)]
+                r.shuffle(g)
             reads, counts = G.gen_reads(r, n_alleles, r.randint(0, 6), haps=g if r.random() < 0.8 else None,
                                         gap=r.choice([0.0, 0.2, 0.5]), style=r.choice(["encoded", "encoded", "free"]))
             if len(counts) == 0:
@@ -186,6 +193,8 @@ def run(tier, replay=None):
             F = r.choice(INBREEDING); T = r.choice(TEMPS)
             U = int(np.prod(n_alleles)); logU = float(np.log(np.array(n_alleles)).sum())
             move = r.choice(["base", "base", "recomb", "dosage", "dosage_full"])
+            if big:
+                move = r.choice(["base", "dosage"])
             common = G.reads_tokens(reads, counts) + G.genotype_tokens(g) + [str(U), C.rat_str(F)]
             if move == "base":
                 h = r.randrange(ploidy); j = r.randrange(n_base)
@@ -197,7 +206,7 @@ def run(tier, replay=None):
                 else:
                     lo = r.randint(0, n_base - 1); hi = r.randint(lo + 1, n_base)
                 st = 0 if move == "recomb" else 1
-                if r.random() < 0.7 and ploidy >= 2:
+                if r.random() < 0.7 and ploidy >= 2 and not big:
                     # genotype assembled from small pools of inside / outside segments, so that segments are shared
                     ins = [[r.randrange(a) for a in n_alleles[lo:hi]] for _ in range(r.randint(2, 3))]
                     outs = [[r.randrange(a) for a in n_alleles[:lo] + n_alleles[hi:]] for _ in range(r.randint(2, 3))]
@@ -224,13 +233,24 @@ def run(tier, replay=None):
             if move == "base":
                 h, j = extra
                 mk, n, _ = model_kernel(a, T, cur)
-                ik, probs = impl_base(garr, reads, counts, h, j, n_alleles[j], logU, F, T)
+                try:
+                    ik, probs = impl_base(garr, reads, counts, h, j, n_alleles[j], logU, F, T)
+                except Exception as e:   # noqa: BLE001
+                    chk.violation(f"base_step raises on a valid state: {type(e).__name__}: {e}", {**case, "h": h, "j": j},
+                                  "C01/base_step/raises" + ("-ploidy>128" if ploidy > 128 else ""))
+                    continue
                 nontriv = n >= 2 and (dup or n_alleles[j] > 2 or T < 1)
                 case.update({"h": h, "j": j})
             else:
                 lo, hi, st = extra
                 mk, n, mlabels = model_kernel(a, T, cur, with_labels=True)
-                ik, n_impl = impl_interval(garr, reads, counts, lo, hi, st, logU, F, T)
+                try:
+                    ik, n_impl = impl_interval(garr, reads, counts, lo, hi, st, logU, F, T)
+                except Exception as e:   # noqa: BLE001
+                    chk.violation(f"interval_step raises on a valid state: {type(e).__name__}: {e}",
+                                  {**case, "interval": [lo, hi], "step_type": st},
+                                  "C01/interval_step/raises" + ("-ploidy>128" if ploidy > 128 else ""))
+                    continue
                 ilabels = " ".join(f"{int(x)}:{int(y)}" for x, y in structural.haplotype_segment_labels(garr, (lo, hi)))
                 case.update({"interval": [lo, hi], "step_type": st})
                 if ilabels != mlabels:
